@@ -62,8 +62,15 @@ def run_word(word, community="public", mode="protocol"):
                 for d in word:
                     n0 = len(got)
                     try:
-                        proto.datagram_received(bytes(d["raw"]), SRC[d["src"]])
+                        with cpu_budget(4, mem_bytes=4 << 30):      # a listener that spins on one datagram never delivers the next one
+                            proto.datagram_received(bytes(d["raw"]), SRC[d["src"]])
+                            for _ in range(3):
+                                await asyncio.sleep(0)
                         raised = ""
+                    except CpuBudget:
+                        raised = "CPU_BUDGET"
+                    except MemoryError:
+                        raised = "CPU_BUDGET"
                     except Exception as e:  # noqa
                         raised = exc_name(e)
                     for _ in range(3):
